@@ -57,15 +57,27 @@ EChk ==     \* Stream.getStreamState:LoadUint32   "stream had closed": drop what
          THEN /\ pending' = <<>> /\ recv' = <<>> /\ epc' = "next" /\ ei' = ei + 1
          ELSE /\ UNCHANGED <<pending, recv, ei>> /\ epc' = "cas"
     /\ UNCHANGED <<state, offered, cip, ccs, gpc, wg, inOnData, upc, cpcOf, oldOf>> /\ U1 /\ KeepKf
-ECas ==     \* Stream.fillDataToReadBuffer:CompareAndSwapUint32 (callbackInProcess 0 -> 1), wg.Add(1), gopool.Go
+ECas ==     \* Stream.fillDataToReadBuffer:CompareAndSwapUint32 (callbackInProcess 0 -> 1), wg.Add(1)
     /\ epc = "cas"
     /\ IF cip = 0
-         THEN \E g \in G : /\ gpc[g] = "none"
-                           /\ \A h \in G : (gpc[h] = "none" => g <= h)       \* deterministic choice of the free slot
-                           /\ cip' = 1 /\ wg' = wg + 1 /\ gpc' = [gpc EXCEPT ![g] = "go"]
-         ELSE UNCHANGED <<cip, wg, gpc>>
+         THEN /\ cip' = 1 /\ wg' = wg + 1 /\ epc' = "rechk" /\ ei' = ei
+         ELSE /\ UNCHANGED <<cip, wg>> /\ epc' = "next" /\ ei' = ei + 1
+    /\ UNCHANGED <<state, pending, recv, offered, ccs, gpc, inOnData, upc, cpcOf, oldOf>> /\ U1 /\ KeepKf
+ERechk ==   \* Stream.getStreamState:LoadUint32 again, now that the goroutine is registered with the wait group: if the stream
+            \* was closed meanwhile the registration is undone, otherwise gopool.Go
+    /\ epc = "rechk"
+    /\ IF state = "closed"
+         THEN /\ epc' = "undo" /\ ei' = ei /\ gpc' = gpc
+         ELSE /\ \E g \in G : /\ gpc[g] = "none"
+                              /\ \A h \in G : (gpc[h] = "none" => g <= h)       \* deterministic choice of the free slot
+                              /\ gpc' = [gpc EXCEPT ![g] = "go"]
+              /\ epc' = "next" /\ ei' = ei + 1
+    /\ UNCHANGED <<state, pending, recv, offered, cip, ccs, wg, inOnData, upc, cpcOf, oldOf>> /\ U1 /\ KeepKf
+EUndo ==    \* Stream.fillDataToReadBuffer:StoreUint32 callbackInProcess = 0, wg.Done, pendingData.clear, recvBuf.recycle
+    /\ epc = "undo"
+    /\ cip' = 0 /\ wg' = wg - 1 /\ pending' = <<>> /\ recv' = <<>>
     /\ epc' = "next" /\ ei' = ei + 1
-    /\ UNCHANGED <<state, pending, recv, offered, ccs, inOnData, upc, cpcOf, oldOf>> /\ U1 /\ KeepKf
+    /\ UNCHANGED <<state, offered, ccs, gpc, inOnData, upc, cpcOf, oldOf>> /\ U1 /\ KeepKf
 EClose ==   \* a close element / stream-close event for this stream: handleStreamMessage -> halfClose
     /\ epc = "next" /\ ei <= Len(Events) /\ Events[ei] = "c"
     /\ IF inTable THEN epc' = "half" /\ ei' = ei ELSE epc' = "next" /\ ei' = ei + 1
@@ -168,7 +180,7 @@ GReCas(g) ==      \* Stream.fillDataToReadBuffer:CompareAndSwapUint32 (second on
                   ELSE /\ UNCHANGED <<cip, recv, pending>> /\ wg' = wg - 1 /\ gpc' = [gpc EXCEPT ![g] = "none"]
     /\ UNCHANGED <<state, offered, ccs, epc, ei, inOnData, upc, cpcOf, oldOf>> /\ U1 /\ KeepKf
 
-EStep == EData \/ EChk \/ ECas \/ EClose \/ EHalf
+EStep == EData \/ EChk \/ ECas \/ ERechk \/ EUndo \/ EClose \/ EHalf
 CStep(c) == PubClose1(c) \/ PubClose2(c) \/ PubClose3(c) \/ CloseBegin(c) \/ CloseCas(c) \/ CloseWait(c) \/ CloseClean(c)
 GStep(g) == GMove(g) \/ GLoop(g) \/ GOnDataClose(g) \/ GOnDataCloseRet(g) \/ GOnDataEnd(g) \/ GClr(g) \/ GLdCcs(g)
             \/ GClosingRet(g) \/ GReCas(g)
@@ -189,6 +201,11 @@ NothingAfterClose == [][state = "closed" => offered' = offered]_vars
 \* C10 (callback part)
 PeerLearns == Guard((Settled /\ localCloseCalled) => (state = "closed" /\ (peerNotified \/ remoteCb > 0)))
 CallbackOnce == Guard(localCb + remoteCb <= 1 /\ ((Settled /\ state = "closed") => localCb + remoteCb = 1))
+\* the teardown is alone: once a caller of close() is past asyncGoroutineWg.Wait() (it is cleaning: pendingData.clear,
+\* recvBuf.recycle - the read buffer has no lock against moveTo), no callback goroutine other than the caller itself
+\* exists or can appear - except one that has already signed off (wg.Done) and is only calling close() itself, which
+\* finds the stream closed. Its violation is a data race between moveTo (appends to the read buffer) and recycle.
+CleanAlone == Guard(\A c \in Callers : cpcOf[c] = "clean" => \A g \in G : (g = c \/ gpc[g] \in {"none", "closing"}))
 \* the unguarded forms (used to show that the classifier is not vacuous / to re-find the listed findings)
 RawNoStranding == (Settled /\ ~localCloseCalled) => DataIds \subseteq Range(offered)
 RawPeerLearns == (Settled /\ localCloseCalled) => (state = "closed" /\ (peerNotified \/ remoteCb > 0))
